@@ -31,4 +31,13 @@ def cases(tier, seed=0):
             for (Rc, Rx) in batches + [(1, 3), (3, 1)]:
                 out.append(make_case(PROP, "joint", kind, 2, 2, Rc, Rx, semi=("Sy",), timeout=900))
                 out.append(make_case(PROP, "joint", kind, 3, 3, Rc, Rx, semi=("Sx",), timeout=900)) if Rc * Rx <= 2 else None
+    # constructor / history variants: built from the precision only; update_Sigma before the operation
+    for kind in KINDS:
+        dd = (2, 2) if kind.startswith("identity") else (2, 1)
+        for var in (("viaL",), ("upd",)):
+            if kind == "nncontrol" and var == ("viaL",):
+                continue
+            sm = var + ((("Sx",) if dd == (2, 2) else ()))
+            out.append(make_case(PROP, "joint", kind, dd[0], dd[1], 1, 1, semi=sm, timeout=600))
+            out.append(make_case(PROP, "joint", kind, 1, 1, 1 if kind == "nncontrol" else 2, 1, semi=var, timeout=600))
     return [c for c in out if c is not None]
